@@ -322,7 +322,7 @@ def index_wiring(ctx, nsets):
         for i in range(n):
             cands = [(int(j), float(knn_d[i, c])) for c, j in enumerate(knn_i[i])]
             ds = [d for _, d in cands]
-            if len(set(ds)) < len(ds) or any(dfun(a, b) == db for (a, da) in cands for (b, db) in cands if a != b):
+            if len(set(ds)) < len(ds) or any(dfun(a, b) == db for (a, da) in cands for (b, db) in cands if a != b and a != i and b != i):
                 tied = True
             fl = spec_flags(cands, dfun)
             fwd |= set((i, j) for (j, d), f in zip(cands, fl) if f and j != i)
@@ -351,7 +351,13 @@ def index_wiring(ctx, nsets):
             if prob == 0.0 and got != sym:
                 report("index-prob0:%s" % kind, "%s index (compressed=%s) with diversify_prob=0: the search graph is not the symmetrised neighbour graph "
                        "(probability 0 must remove nothing)" % (kind, compressed), got, sym, dict(kind=kind, diversify_prob=0.0, compressed=compressed))
-            if prob == 1.0 and not tied and got != spec1:
+            if prob == 1.0 and not tied and got != spec1 and got == (fwd | set((b, a) for (a, b) in fwd)):
+                # forward rows right, reverse rows not diversified at all: the call site hands diversify_csr the arrays of
+                # self._search_graph.transpose(), a CSC *view* whose (indptr, indices, data) are the forward rows again
+                report("index-reverse-pass-not-applied:%s" % kind,
+                       "%s index with diversify_prob=1: reverse edges that the rule removes are all kept - _init_search_graph applies the reverse "
+                       "pass to a transposed view (the forward rows again), so it removes nothing" % kind, got, spec1, dict(kind=kind, diversify_prob=1.0))
+            elif prob == 1.0 and not tied and got != spec1:
                 report("index-prob1:%s" % kind, "%s index with diversify_prob=1: the search graph differs from the forward + reverse specification" % kind,
                        got, spec1, dict(kind=kind, diversify_prob=1.0))
         for prob in (0.0, 1.0):
